@@ -42,6 +42,12 @@ def cases(tier):
                         for sl in (STEPLISTS if not q else ('vary3', 'close3', 'tiny_fast')):
                             for h in ((0.1, 0.01) if not q else (0.1,)):
                                 yield {'kind': 'schemes', 'dims': list(dims), 'ro': ro, 'fam': fam, 'rx': rx, 'steps': sl, 'h': h}
+    # exactly one step
+    for d in (1, 2, 3):
+        for dims in itertools.product([2, 3], repeat=d):
+            for fam in ('real', 'markov'):
+                for rx in admissible_ranks(list(dims)):
+                    yield {'kind': 'schemes', 'dims': list(dims), 'ro': min(2, d), 'fam': fam, 'rx': rx, 'steps': 'const1', 'h': 0.1}
     # mixed dtypes: complex operator (complex entries only from its second core on) with real states and guesses ('cop'),
     # real operator with complex states ('cx')
     for d in (1, 2, 3):
